@@ -367,13 +367,15 @@ class RuntimeState(utils.NiceRepr):
                     self.set_report_style(key.replace('REPORT_', ''))
                 elif action == 'assign':
                     state[key] = value
-                elif action == 'set.add':
-                    state[key].add(value)
-                elif action == 'set.remove':
-                    try:
-                        state[key].remove(value)
-                    except KeyError:
-                        pass
+                elif action in {'set.add', 'set.remove'}:
+                    if key not in state:
+                        # An inline directive only impacts the current line:
+                        # modify a copy of the persistent set.
+                        state[key] = set(self._global_state[key])
+                    if action == 'set.add':
+                        state[key].add(value)
+                    else:
+                        state[key].discard(value)
                 else:
                     raise KeyError('unknown action {}'.format(action))
 
